@@ -120,6 +120,30 @@ def leaf_kind(leaf):
     return ("expr",)
 
 
+def _only_sext(e, depth=0):
+    if not isinstance(e, tuple) or depth > 30:
+        return True
+    if e[0] == "cast" and e[1] in ("zext", "trunc"):
+        return False
+    return all(_only_sext(k, depth + 1) for k in e if isinstance(k, tuple))
+
+
+def _point_image(leaf, var, P, signed_free, rbits):
+    """forward image of a one-point set through an affine leaf (None when P has more than one point, the leaf is not
+    affine, or a negative point would pass through a zero extension / truncation)"""
+    if P.size() != 1:
+        return None
+    aff = iset.affine(leaf, var)
+    if aff is None:
+        return None
+    x0 = (P.signed_intervals() if signed_free else list(P.ivs))[0][0]
+    if x0 < 0 and not _only_sext(leaf):
+        return None
+    if not _only_sext(leaf) and x0 >= (1 << (P.bits - 1)):
+        return None
+    return (aff[0] * x0 + aff[1]) & ((1 << rbits) - 1)
+
+
 def decide(gk, gref, var, domain, zones, expect, signed_free, rbits, exact=None, okjudge=None):
     """gk: gated CNL kernel; gref: gated plain-operation reference; domain: ISet of admissible free values;
     zones: {'ok'|'high'|'low': (lo,hi) math interval or None}; expect: {'high': spec, 'low': spec} where spec is
@@ -204,6 +228,12 @@ def decide(gk, gref, var, domain, zones, expect, signed_free, rbits, exact=None,
                 elif kind[0] in ("throw", "call"):
                     verdict = "refuted"
                     details.append((zname + ":signal-instead-of-bound", "%s: expected saturation, got %s" % (where, kind)))
+                elif kind[0] == "expr" and _point_image(leaf, var, P, signed_free, rbits) is not None:
+                    # a one-point part of the zone: the forward image of that set through the (affine) leaf is one value
+                    v = _point_image(leaf, var, P, signed_free, rbits)
+                    if v != spec[1] & ((1 << rbits) - 1):
+                        verdict = "refuted"
+                        details.append((zname + ":overflow-not-detected", "%s: the exact result is out of range but the kernel returns the wrapped operation %s (= %d) instead of the bound %d" % (where, gate.show(leaf)[:120], v, spec[1] & ((1 << rbits) - 1))))
                 elif kind[0] == "expr" and _nonconstant(leaf, var, P):
                     verdict = "refuted"
                     details.append((zname + ":overflow-not-detected", "%s: the exact result is out of range for all %d operand values here but the kernel returns the wrapped operation %s instead of the bound" % (where, P.size(), gate.show(leaf)[:120])))
